@@ -7,6 +7,8 @@ package ops
 import (
 	"context"
 	"fmt"
+	"os"
+	"path/filepath"
 	"runtime/debug"
 	"sort"
 	"strings"
@@ -70,6 +72,7 @@ const (
 	ParserPositions
 	ParseCtxCancelled
 	TransformFromSQL
+	ConfigLoad
 	NKinds
 )
 
@@ -78,7 +81,7 @@ var names = [...]string{"tokenize-direct", "tokenize-pooled", "gosqlx.Parse", "g
 	"parser.ValidateBytes", "parser.ParseBytesWithTokens", "parser.ParseWithDialect", "AST.SQL+Format", "formatter.Format",
 	"gosqlx.Extract*", "security.ScanSQL", "security.Scan", "linter.LintString", "errors.SuggestKeyword", "observe-stats",
 	"monitor.Record*", "ast.SetSpan/GetSpan", "Parser(strict).ParseFromModelTokens", "GetParser+ApplyOptions+Parse+PutParser",
-	"Parser.ParseFromModelTokensWithPositions", "gosqlx.ParseWithContext(cancelled at poll k)", "transform.Apply(AddWhereFromSQL/AddJoinFromSQL rule values shared across calls)"}
+	"Parser.ParseFromModelTokensWithPositions", "gosqlx.ParseWithContext(cancelled at poll k)", "transform.Apply(AddWhereFromSQL/AddJoinFromSQL rule values shared across calls)", "config.LoadFromFileCached"}
 
 func (k Kind) String() string { return names[k] }
 
@@ -158,6 +161,30 @@ func sortedSet(xs []string) string {
 	ys := append([]string(nil), xs...)
 	sort.Strings(ys)
 	return canon.Of(ys)
+}
+
+var cfgFiles []string
+
+// SetScratch creates the small config files the ConfigLoad operation reads.
+func SetScratch(dir string) {
+	if len(cfgFiles) > 0 || dir == "" {
+		return
+	}
+	d := filepath.Join(dir, fmt.Sprintf("opscfg.%d", os.Getpid()))
+	if os.MkdirAll(d, 0o755) != nil {
+		return
+	}
+	for name, body := range map[string]string{
+		"a.json": `{"format":{"indent":4},"validation":{"dialect":"mysql"}}`,
+		"b.yaml": "format:\n  indent: 3\nvalidation:\n  dialect: sqlite\n",
+		"c.json": `{}`,
+	} {
+		p := filepath.Join(d, name)
+		if os.WriteFile(p, []byte(body), 0o644) == nil {
+			cfgFiles = append(cfgFiles, p)
+		}
+	}
+	sort.Strings(cfgFiles)
 }
 
 var (
@@ -346,6 +373,20 @@ func (o Op) Exec(hold bool) (res string, held []Held) {
 		}
 		_ = monitor.GetMetrics()
 		res = "monitored"
+	case ConfigLoad:
+		if len(cfgFiles) == 0 {
+			res = "no-config-files"
+			break
+		}
+		c, err := config.LoadFromFileCached(cfgFiles[o.Flag%len(cfgFiles)])
+		res = "cfg=" + canon.Of(c) + " err=" + canon.Err(err)
+		if c != nil {
+			keep("config", c.Clone(), nil)
+			// the returned config belongs to the caller, who may change it: the cache
+			// must not be affected (a later load must still return the file's content)
+			c.Format.Indent = 99
+			c.Validation.Dialect = "changed-by-caller"
+		}
 	case TransformFromSQL:
 		// rule values are built once and applied to many trees, as the package doc shows
 		a, err := gosqlx.Parse(o.SQL)
